@@ -35,6 +35,7 @@ type BaselineEntry struct {
 	Name   string `json:"name"`
 	Status string `json:"status"` // proved | undecided
 	Why    string `json:"why,omitempty"`
+	Mode   string `json:"mode,omitempty"` // "full": discharged only with the whole context (no cone-of-influence pruning)
 }
 
 type KnownFinding struct {
@@ -261,14 +262,27 @@ func cmdCheck(args []string) {
 			}
 		}
 	}
+	for _, o := range counted {
+		if be, ok := baseline[baseName(o.Name)]; ok && be.Mode == "full" && !*writeBaseline {
+			o.NoPrune = true
+		}
+	}
 	DischargeAll(counted, dir, timeout, 6)
 	// an obligation the committed baseline lists as proved that only timed out (machine under load) is retried on
 	// its own with a longer limit before anything is concluded from it
-	if !*writeBaseline {
+	{
+		// second attempt, with the whole context (the cone-of-influence pruning can drop a fact that was needed) and a
+		// longer limit: for baseline-proved obligations that came back undecided, and for every undecided contract
+		// obligation while a baseline is being written
 		var retry []*Obligation
 		for _, o := range counted {
-			if be, ok := baseline[baseName(o.Name)]; ok && be.Status == "proved" && o.Status == "unknown" && o.Expect != "canary" {
+			if o.Expect == "canary" || (o.Status != "unknown" && o.Status != "failed") {
+				continue
+			}
+			be, ok := baseline[baseName(o.Name)]
+			if (!*writeBaseline && ok && be.Status == "proved") || (*writeBaseline && o.Class != "panic") {
 				o.Status, o.Detail = "", ""
+				o.NoPrune = true
 				retry = append(retry, o)
 			}
 		}
@@ -316,6 +330,11 @@ func cmdCheck(args []string) {
 				continue
 			}
 			e := BaselineEntry{Name: n, Status: "proved"}
+			for _, m := range g.Members {
+				if m.NoPrune && m.Status == "proved" {
+					e.Mode = "full"
+				}
+			}
 			if unstable[n] {
 				e.Status, e.Why = "undecided", "slow proof (listed as unstable)"
 			} else if g.Status != "proved" {
